@@ -2,7 +2,7 @@
     Table::Build produces to the abstract table of the lookup model, and the proof that the index built from any
     well-formed vocabulary - in particular from any source, C06's [compile_vocab] - satisfies [wf_table], and
     [table_sorted] unless the source asks for the original order. *)
-From Coq Require Import List Arith ZArith NArith Bool Lia Sorted.
+From Coq Require Import List Arith ZArith NArith Bool Lia Sorted Permutation.
 From Coq.Strings Require Import Byte.
 From RimeV Require Base.Bytes Dict.Vocab Dict.TableIx Dict.TableProofs.
 From RimeV Require Import Lookup.Defs Lookup.Model Lookup.Spec Lookup.ScriptProofs.
@@ -313,5 +313,253 @@ Theorem compiled_index_sorted (files : list (Vo.colspec * list Base.Bytes.bytes)
   let c := Vo.collect_files files in
   table_sorted (conv_head (Ix.build_head cast (length (Vo.co_syll c)) (Vo.compile_vocab false c))).
 Proof. intros c. apply built_index_sorted. unfold Vo.compile_vocab. apply TP.sort1_sorted. Qed.
+
+
+(** * [table_has] of the converted index = C06's [enumerate] = the collected source entries *)
+
+(** keys of every trunk below the number of syllables (C06's builder: wf_lvl) *)
+Definition keys_lt3 (S : nat) (t3 : Ix.trunk3 F) : Prop := Forall (fun n => Ix.n_key n < S) t3.
+Definition keys_lt2 (S : nat) (t2 : Ix.trunk2 F) : Prop :=
+  Forall (fun n => Ix.n_key n < S /\ match Ix.n_next n with Some t3 => keys_lt3 S t3 | None => True end) t2.
+Definition keys_lt (S : nat) (h : Ix.head F) : Prop :=
+  Forall (fun hn => match Ix.h_next hn with Some t2 => keys_lt2 S t2 | None => True end) h.
+
+Lemma build_trunk3_keys_lt S v : TP.wf3 S v -> keys_lt3 S (Ix.build_trunk3 cast v).
+Proof.
+  intros [_ H]. unfold keys_lt3, Ix.build_trunk3, Ix.build_trunk. rewrite Forall_map.
+  eapply Forall_impl; [|exact H]. intros [k p] [Hk _]. exact Hk.
+Qed.
+
+Lemma build_trunk2_keys_lt S v : TP.wf2 S v -> keys_lt2 S (Ix.build_trunk2 cast v).
+Proof.
+  intros [_ H]. unfold keys_lt2, Ix.build_trunk2, Ix.build_trunk. rewrite Forall_map.
+  eapply Forall_impl; [|exact H]. intros [k p] [Hk Hp]. cbn in *. split; [exact Hk|].
+  unfold Vo.voc3 in *. destruct (Vo.p_next p); cbn; [now apply build_trunk3_keys_lt|exact I].
+Qed.
+
+Lemma build_head_keys_lt S v : TP.wf1 S v -> keys_lt S (Ix.build_head cast S v).
+Proof.
+  intros [_ Hb]. unfold keys_lt, Ix.build_head.
+  assert (H0 : Forall (fun hn : Ix.hnode F => match Ix.h_next hn with Some t2 => keys_lt2 S t2 | None => True end)
+                      (repeat (Ix.hnode0 F) S)).
+  { apply Forall_forall. intros x Hx. apply repeat_spec in Hx. subst. exact I. }
+  revert H0. generalize (repeat (Ix.hnode0 F) S).
+  induction Hb as [|[k p] r [_ Hp] _ IH]; intros arr Harr; cbn [fold_left]; [exact Harr|].
+  apply IH. apply TP.set_nth_Forall; [|exact Harr]. cbn in *.
+  unfold Vo.voc2, Vo.voc3 in *. destruct (Vo.p_next p); cbn; [now apply build_trunk2_keys_lt|exact I].
+Qed.
+
+Lemma build_head_length S (v : Vo.voc1) : length (Ix.build_head cast S v) = S.
+Proof.
+  unfold Ix.build_head. rewrite <- (repeat_length (Ix.hnode0 F) S) at 2. generalize (repeat (Ix.hnode0 F) S).
+  induction v as [|kp v IH]; intros arr; cbn [fold_left]; [reflexivity|]. rewrite IH. apply TP.set_nth_length.
+Qed.
+
+(** the entries of an index, with their full codes *)
+Inductive ix_entry (h : Ix.head F) : code -> Ix.ientry F -> Prop :=
+| ixe1 : forall i hn ie, nth_error h i = Some hn -> In ie (Ix.h_entries hn) -> ix_entry h [i] ie
+| ixe2 : forall i hn t2 n2 ie, nth_error h i = Some hn -> Ix.h_next hn = Some t2 -> In n2 t2 ->
+                               In ie (Ix.n_entries n2) -> ix_entry h [i; Ix.n_key n2] ie
+| ixe3 : forall i hn t2 n2 t3 n3 ie, nth_error h i = Some hn -> Ix.h_next hn = Some t2 -> In n2 t2 ->
+                                     Ix.n_next n2 = Some t3 -> In n3 t3 -> In ie (Ix.n_entries n3) ->
+                                     ix_entry h [i; Ix.n_key n2; Ix.n_key n3] ie
+| ixe4 : forall i hn t2 n2 t3 n3 tl le, nth_error h i = Some hn -> Ix.h_next hn = Some t2 -> In n2 t2 ->
+                                        Ix.n_next n2 = Some t3 -> In n3 t3 -> Ix.n_next n3 = Some tl -> In le tl ->
+                                        ix_entry h ([i; Ix.n_key n2; Ix.n_key n3] ++ Ix.le_extra le) (Ix.le_entry le).
+
+Lemma find_node_ix {A} (l : list (Ix.inode F A)) k n :
+  TP.keys_sorted F l -> (Ix.find_node k l = Some n <-> In n l /\ Ix.n_key n = k).
+Proof.
+  intros S. unfold Ix.find_node. split.
+  - intros H. apply find_some in H. destruct H as [H1 H2]. apply Nat.eqb_eq in H2. auto.
+  - intros [H1 H2]. destruct (find (fun n0 => Ix.n_key n0 =? k) l) as [n'|] eqn:E.
+    + apply find_some in E. destruct E as [E1 E2]. apply Nat.eqb_eq in E2. f_equal.
+      eapply keys_unique; eauto. congruence.
+    + exfalso. pose proof (find_none _ _ E n H1) as X. cbn in X. rewrite H2, Nat.eqb_refl in X. discriminate.
+Qed.
+
+Ltac dfind H n F :=
+  match type of H with context [@Ix.find_node ?f ?a ?k ?l] =>
+    destruct (@Ix.find_node f a k l) as [n|] eqn:F; [|destruct H] end.
+
+Ltac rwnext E :=
+  let lhs := match type of E with ?l = _ => l end in
+  match goal with |- context [@Ix.n_next ?f ?a ?n] => change (@Ix.n_next f a n) with lhs end; rewrite E.
+
+Ltac rwfind X :=
+  let E := fresh "E" in pose proof X as E;
+  match type of E with ?lhs = _ =>
+    match goal with |- context [@Ix.find_node ?f ?a ?k ?l] => change (@Ix.find_node f a k l) with lhs end
+  end; rewrite E; clear E.
+
+Lemma enumerate_ix_entry S h c ie :
+  length h = S -> TP.ix_sorted_head F h -> keys_lt S h ->
+  (In (c, ie) (Ix.enumerate S h) <-> ix_entry h c ie).
+Proof.
+  intros HL HS HK. unfold Ix.enumerate. rewrite in_flat_map. split.
+  - intros [i [Hi H]]. destruct (nth_error h i) as [hn|] eqn:E1; [|destruct H].
+    apply in_app_or in H. destruct H as [H|H].
+    + unfold Ix.emit in H. apply in_map_iff in H. destruct H as [x [Ex Hx]]. injection Ex as <- <-. econstructor; eassumption.
+    + destruct (Ix.h_next hn) as [t2|] eqn:E2; [|destruct H].
+      pose proof (sorted2_of h i hn t2 HS E1 E2) as S2.
+      unfold Ix.enum_trunk2, Ix.enum_trunk in H. apply in_flat_map in H. destruct H as [k2 [_ H]].
+      dfind H n2 F2.
+      apply (find_node_ix t2 k2 n2 (proj1 S2)) in F2. destruct F2 as [H2 <-].
+      apply in_app_or in H. destruct H as [H|H].
+      * unfold Ix.emit in H. apply in_map_iff in H. destruct H as [x [Ex Hx]]. injection Ex as <- <-. cbn [app].
+        econstructor; eassumption.
+      * destruct (Ix.n_next n2) as [t3|] eqn:E3; [|destruct H].
+        pose proof (sorted3_of t2 n2 t3 S2 H2 E3) as S3.
+        unfold Ix.enum_trunk3, Ix.enum_trunk in H. apply in_flat_map in H. destruct H as [k3 [_ H]].
+        dfind H n3 F3.
+        apply (find_node_ix t3 k3 n3 S3) in F3. destruct F3 as [H3 <-].
+        apply in_app_or in H. destruct H as [H|H].
+        -- unfold Ix.emit in H. apply in_map_iff in H. destruct H as [x [Ex Hx]]. injection Ex as <- <-. cbn [app].
+           econstructor; eassumption.
+        -- destruct (Ix.n_next n3) as [tl|] eqn:E4; [|destruct H].
+           unfold Ix.emit_tail in H. apply in_map_iff in H. destruct H as [le [Ex Hle]]. injection Ex as <- <-. cbn [app].
+           eapply ixe4; eassumption.
+  - intros X.
+    assert (Hi : forall i hn, nth_error h i = Some hn -> In i (seq 0 S)).
+    { intros i hn E. apply in_seq. split; [lia|]. cbn. rewrite <- HL. apply nth_error_Some. congruence. }
+    assert (K2 : forall i hn t2, nth_error h i = Some hn -> Ix.h_next hn = Some t2 -> keys_lt2 S t2).
+    { intros i hn t2 E1 E2. unfold keys_lt in HK. rewrite Forall_forall in HK. specialize (HK hn (nth_error_In _ _ E1)). now rewrite E2 in HK. }
+    destruct X as [i hn ie0 E1 He|i hn t2 n2 ie0 E1 E2 H2 He|i hn t2 n2 t3 n3 ie0 E1 E2 H2 E3 H3 He|i hn t2 n2 t3 n3 tl le E1 E2 H2 E3 H3 E4 Hle];
+      exists i; (split; [eapply Hi; eassumption|]); rewrite E1; apply in_or_app.
+    + left. unfold Ix.emit. apply in_map_iff. exists ie0. auto.
+    + right. rewrite E2. pose proof (sorted2_of h i hn t2 HS E1 E2) as S2. pose proof (K2 i hn t2 E1 E2) as L2.
+      unfold keys_lt2 in L2. rewrite Forall_forall in L2. destruct (L2 n2 H2) as [Lk _].
+      unfold Ix.enum_trunk2, Ix.enum_trunk. apply in_flat_map. exists (Ix.n_key n2). split; [apply in_seq; lia|].
+      rwfind (proj2 (find_node_ix t2 (Ix.n_key n2) n2 (proj1 S2)) (conj H2 eq_refl)).
+      apply in_or_app. left. unfold Ix.emit. apply in_map_iff. exists ie0. auto.
+    + right. rewrite E2. pose proof (sorted2_of h i hn t2 HS E1 E2) as S2. pose proof (K2 i hn t2 E1 E2) as L2.
+      unfold keys_lt2 in L2. rewrite Forall_forall in L2. destruct (L2 n2 H2) as [Lk L3]. rewrite E3 in L3.
+      unfold keys_lt3 in L3. rewrite Forall_forall in L3. pose proof (L3 n3 H3) as Lk3.
+      pose proof (sorted3_of t2 n2 t3 S2 H2 E3) as S3.
+      unfold Ix.enum_trunk2, Ix.enum_trunk. apply in_flat_map. exists (Ix.n_key n2). split; [apply in_seq; lia|].
+      rwfind (proj2 (find_node_ix t2 (Ix.n_key n2) n2 (proj1 S2)) (conj H2 eq_refl)).
+      apply in_or_app. right. cbn beta iota. rwnext E3. unfold Ix.enum_trunk3, Ix.enum_trunk. apply in_flat_map.
+      exists (Ix.n_key n3). split; [apply in_seq; lia|].
+      rwfind (proj2 (find_node_ix t3 (Ix.n_key n3) n3 S3) (conj H3 eq_refl)).
+      apply in_or_app. left. unfold Ix.emit. apply in_map_iff. exists ie0. auto.
+    + right. rewrite E2. pose proof (sorted2_of h i hn t2 HS E1 E2) as S2. pose proof (K2 i hn t2 E1 E2) as L2.
+      unfold keys_lt2 in L2. rewrite Forall_forall in L2. destruct (L2 n2 H2) as [Lk L3]. rewrite E3 in L3.
+      unfold keys_lt3 in L3. rewrite Forall_forall in L3. pose proof (L3 n3 H3) as Lk3.
+      pose proof (sorted3_of t2 n2 t3 S2 H2 E3) as S3.
+      unfold Ix.enum_trunk2, Ix.enum_trunk. apply in_flat_map. exists (Ix.n_key n2). split; [apply in_seq; lia|].
+      rwfind (proj2 (find_node_ix t2 (Ix.n_key n2) n2 (proj1 S2)) (conj H2 eq_refl)).
+      apply in_or_app. right. cbn beta iota. rwnext E3. unfold Ix.enum_trunk3, Ix.enum_trunk. apply in_flat_map.
+      exists (Ix.n_key n3). split; [apply in_seq; lia|].
+      rwfind (proj2 (find_node_ix t3 (Ix.n_key n3) n3 S3) (conj H3 eq_refl)).
+      apply in_or_app. right. cbn beta iota. rwnext E4. unfold Ix.emit_tail. apply in_map_iff. exists le. auto.
+Qed.
+
+Lemma table_has_ix_entry h c te :
+  TP.ix_sorted_head F h -> ix_all (fun _ => True) tail_ok h ->
+  (table_has (conv_head h) c te <-> exists ie, ix_entry h c ie /\ te = conv_entry ie).
+Proof.
+  intros HS HA. split.
+  - intros [[L Hin]|[L Hin]].
+    + unfold node_ents in Hin. destruct (find_node (conv_head h) c) as [n|] eqn:E; [|destruct Hin].
+      destruct (find_node_spec _ _ _ E) as [Hn Hc]. apply conv_head_in in Hn. subst c.
+      destruct Hn as [i hn E1|i hn t2 n2 E1 E2 H2|i hn t2 n2 t3 n3 E1 E2 H2 E3 H3]; cbn [node1 node2 node3 n_ents n_code app] in *;
+        apply in_map_iff in Hin; destruct Hin as [ie [<- Hie]]; exists ie; (split; [|reflexivity]).
+      * econstructor; eassumption.
+      * econstructor; eassumption.
+      * eapply ixe3; eassumption.
+    + unfold node_tail in Hin. destruct (find_node (conv_head h) (firstn 3 c)) as [n|] eqn:E; [|destruct Hin].
+      destruct (find_node_spec _ _ _ E) as [Hn Hc]. apply conv_head_in in Hn.
+      destruct Hn as [i hn E1|i hn t2 n2 E1 E2 H2|i hn t2 n2 t3 n3 E1 E2 H2 E3 H3]; cbn [node1 node2 node3 n_tail n_code app] in *;
+        try (destruct Hin; fail).
+      destruct (Ix.n_next n3) as [tl|] eqn:E4; [|destruct Hin]. unfold conv_tail in Hin. apply in_map_iff in Hin.
+      destruct Hin as [le [Ele Hle]]. injection Ele as Ex Ee. exists (Ix.le_entry le). split; [|now rewrite Ee].
+      assert (Ec : c = [i; Ix.n_key n2; Ix.n_key n3] ++ Ix.le_extra le).
+      { rewrite <- (firstn_skipn 3 c) at 1. f_equal; [symmetry; exact Hc|symmetry; exact Ex]. }
+      rewrite Ec. eapply ixe4; eassumption.
+  - intros [ie [X ->]].
+    destruct X as [i hn ie0 E1 He|i hn t2 n2 ie0 E1 E2 H2 He|i hn t2 n2 t3 n3 ie0 E1 E2 H2 E3 H3 He|i hn t2 n2 t3 n3 tl le E1 E2 H2 E3 H3 E4 Hle].
+    + left. split; [cbn; lia|]. unfold node_ents.
+      pose proof (find_node_shape h (node1 i hn) HS (shape1 h i hn E1)) as X. change (n_code (node1 i hn)) with [i] in X.
+      rewrite X. cbn. now apply in_map.
+    + left. split; [cbn; lia|]. unfold node_ents.
+      pose proof (find_node_shape h (node2 [i] n2) HS (shape2 h i hn t2 n2 E1 E2 H2)) as X.
+      change (n_code (node2 [i] n2)) with [i; Ix.n_key n2] in X. rewrite X. cbn. now apply in_map.
+    + left. split; [cbn; lia|]. unfold node_ents.
+      pose proof (find_node_shape h (node3 [i; Ix.n_key n2] n3) HS (shape3 h i hn t2 n2 t3 n3 E1 E2 H2 E3 H3)) as X.
+      change (n_code (node3 [i; Ix.n_key n2] n3)) with [i; Ix.n_key n2; Ix.n_key n3] in X. rewrite X. cbn. now apply in_map.
+    + assert (NX : Ix.le_extra le <> []).
+      { destruct (ix_all_shape _ _ h _ HA (shape3 h i hn t2 n2 t3 n3 E1 E2 H2 E3 H3)) as (es & _ & _ & [T|(tl' & Et & Ht & _)]).
+        - cbn [node3 n_tail] in T. rewrite E4 in T. destruct tl; [destruct Hle|discriminate].
+        - cbn [node3 n_tail] in Et. rewrite E4 in Et. unfold tail_ok in Ht. rewrite Forall_forall in Ht.
+          assert (In (mkLE (Ix.le_extra le) (conv_entry (Ix.le_entry le))) (conv_tail tl')).
+          { rewrite <- Et. unfold conv_tail. apply in_map_iff. exists le. auto. }
+          unfold conv_tail in H. apply in_map_iff in H. destruct H as [le' [El Hl']]. injection El as Ex _.
+          rewrite <- Ex. now apply Ht. }
+      right. split; [rewrite app_length; destruct (Ix.le_extra le); [congruence|cbn; lia]|].
+      cbn [app firstn skipn]. unfold node_tail.
+      pose proof (find_node_shape h (node3 [i; Ix.n_key n2] n3) HS (shape3 h i hn t2 n2 t3 n3 E1 E2 H2 E3 H3)) as X.
+      match goal with |- context [find_node ?t ?c] =>
+        change (find_node t c) with (find_node (conv_head h) (n_code (node3 [i; Ix.n_key n2] n3))) end.
+      rewrite X. cbn [node3 n_tail].
+      rewrite E4. unfold conv_tail. apply in_map_iff. exists le. auto.
+Qed.
+
+(** for every vocabulary C06 calls well-formed: [table_has] of the converted index is C06's enumeration *)
+Theorem table_has_enumerate S v c te :
+  TP.wf1 S v ->
+  (table_has (conv_head (Ix.build_head cast S v)) c te <->
+   exists ie, In (c, ie) (Ix.enumerate S (Ix.build_head cast S v)) /\ te = conv_entry ie).
+Proof.
+  intros W. rewrite table_has_ix_entry.
+  - split; intros [ie [H E]]; exists ie; (split; [|exact E]);
+      apply (enumerate_ix_entry S _ c ie (build_head_length S v) (TP.build_head_sorted F cast S v W) (build_head_keys_lt S v W)); exact H.
+  - now apply TP.build_head_sorted.
+  - apply (build_head_all (fun _ => True) TP.wf4 (fun _ => True) tail_ok); auto using build_tail_ok. now apply (wf1_tails S).
+Qed.
+
+(** ... hence, for every source, the collected entries that carry a code (C06_enumerate_build) *)
+Theorem table_has_source (sort_original : bool) (files : list (Vo.colspec * list Base.Bytes.bytes)) c te :
+  let col := Vo.collect_files files in
+  let t := conv_head (Ix.build_head cast (length (Vo.co_syll col)) (Vo.compile_vocab sort_original col)) in
+  table_has t c te <->
+  exists e, In e (Vo.entries_of col) /\ Vo.e_code e = c /\ c <> [] /\
+            te = mkTE (conv_text (Vo.e_text e)) (wz (cast (Vo.e_w e))).
+Proof.
+  intros col t. unfold t. rewrite table_has_enumerate.
+  2:{ unfold Vo.compile_vocab.
+      assert (H : TP.wf1 (length (Vo.co_syll col)) (Vo.vocab_of (Vo.entries_of col))).
+      { apply TP.vocab_of_wf. apply TP.entries_of_ids. apply TP.collect_files_inv. }
+      destruct sort_original; [exact H|now apply TP.sort1_wf]. }
+  pose proof (TP.enumerate_build_source cast sort_original files) as P. cbn zeta in P. fold col in P.
+  split.
+  - intros [ie [Hin ->]]. eapply Permutation_in in Hin; [|exact P].
+    apply in_map_iff in Hin. destruct Hin as [o [Eo Ho]]. apply in_map_iff in Ho. destruct Ho as [e [<- He]].
+    apply filter_In in He. destruct He as [He Hc]. unfold TP.conv, TP.out_of, TP.te in Eo. cbn in Eo. injection Eo as <- <-.
+    exists e. split; [exact He|]. split; [reflexivity|]. split; [|reflexivity].
+    unfold TP.has_code in Hc. destruct (Vo.e_code e); [discriminate|discriminate].
+  - intros [e [He [<- [Nc ->]]]]. exists (Ix.build_entry cast e). split; [|reflexivity].
+    eapply Permutation_in; [symmetry; exact P|]. apply in_map_iff. exists (TP.out_of e). split; [reflexivity|].
+    apply in_map. apply filter_In. split; [exact He|]. unfold TP.has_code. destruct (Vo.e_code e) eqn:Ee; [exfalso; now apply Nc|reflexivity].
+Qed.
+
+(** ... i.e. the rows of the source files (C06_nothing_invented / C06_nothing_lost): text and code *)
+Theorem table_has_rows (sort_original : bool) (files : list (Vo.colspec * list Base.Bytes.bytes)) c txt :
+  let col := Vo.collect_files files in
+  let t := conv_head (Ix.build_head cast (length (Vo.co_syll col)) (Vo.compile_vocab sort_original col)) in
+  (exists w, table_has t c (mkTE txt w)) <->
+  c <> [] /\ exists tx cs ws, In (Vo.LRow tx cs ws) (TP.source_rows files) /\ cs <> [] /\
+                              txt = conv_text tx /\ c = map (Vo.id_of (Vo.co_syll col)) (Vo.split_skip Byte.x20 cs).
+Proof.
+  intros col t. split.
+  - intros [w H]. apply (table_has_source sort_original files) in H. destruct H as [e [He [Ec [Nc Et]]]].
+    split; [exact Nc|]. unfold Vo.entries_of in He. apply in_map_iff in He. destruct He as [r [<- Hr]].
+    apply in_rev in Hr. destruct (TP.source_nothing_invented files r Hr) as (tx & cs & ws & Hrow & Ncs & ->).
+    exists tx, cs, ws. injection Et as -> _. cbn in *. auto.
+  - intros [Nc (tx & cs & ws & Hrow & Ncs & -> & ->)].
+    destruct (TP.source_nothing_lost files tx cs ws Hrow Ncs) as (r & Hr & Et & Ec & _).
+    exists (wz (cast (Vo.e_w (Vo.short_of (Vo.co_syll col) r)))).
+    apply (table_has_source sort_original files). exists (Vo.short_of (Vo.co_syll col) r).
+    split; [unfold Vo.entries_of; apply in_map; now apply -> in_rev|]. cbn. rewrite Et, Ec. auto.
+Qed.
 
 End TableSide.
